@@ -395,8 +395,63 @@ def _r2(run, st):
                      kind="join-before-set-on-error-path", **facts)
     else:
         run.holds("C19.R2", f, st.proc_call, "no join of the workers is reachable before the done flag is set, on any path", **facts)
+    # (iv) once a status check has raised, the stage must not wait for the work queue to drain: queue.join_thread() returns only
+    #      when everything put so far has been written to the pipe, which needs a live reader -- with the workers dead (the reason
+    #      for the exception) and more than a pipe buffer of items queued it never returns, and the error is never reported
+    for n_, how in sites:
+        raised_ = set()
+        for c_ in cfg.calls_at(n_):
+            tgt_ = common.resolve_callee(project, f, c_)
+            if tgt_ is not None:
+                raised_ |= common.raised_classes(project, tgt_)
+        for x_ in ast.walk(n_.ast) if n_.ast is not None else []:
+            if isinstance(x_, ast.Raise) and x_.exc is not None:
+                d_ = dotted(x_.exc.func if isinstance(x_.exc, ast.Call) else x_.exc)
+                if d_:
+                    raised_.add(d_.split(".")[-1])
+        exc_targets = _exception_landing(cfg, f, n_, raised_ or {"Exception"})
+        seen_ = set()
+        for j in exc_targets:
+            seen_ |= cfg.reachable(j) | {j}
+        for qv in st.queues:
+            for m, c in common.method_calls_on(cfg, {qv}, "join_thread"):
+                if m.id in seen_ and m.id != n_.id:
+                    run.violated("C19.R2", f, c, "%s.join_thread() at line %d also runs on the exception path out of the status check at line %d (a finally / handler): the "
+                                 "failure was detected because workers died, so nobody drains the queue and the flush blocks forever instead of the error "
+                                 "being reported" % (qv, m.line, n_.line), kind="flush-on-error-path", **facts)
+                    break
+            else:
+                continue
+            break
+        else:
+            continue
+        break
     if n_waits == 0:
         run.undecided("C19.R2", f, st.proc_call, "no wait found in stage", kind="no-waits")
+
+
+def _exception_landing(cfg, f, node, raised):
+    """CFG nodes where control continues when the statement at *node* raises an exception of one of the classes *raised*: the
+    first enclosing handler that catches it, and on the way out every `finally` block of the try statements it leaves."""
+    out = []
+    tries = [(s_, blk) for s_, blk in enclosing_stmts(f.node, node.ast) if isinstance(s_, ast.Try) and blk == "body"]
+    tries.sort(key=lambda sb: -sb[0].lineno)            # innermost first
+    for s_, _blk in tries:
+        caught = [h for h in s_.handlers if any(common.handler_catches_class(h, r) for r in raised)]
+        if caught:
+            hn = [x for x in cfg.nodes if x.kind == "except" and x.ast is caught[0]]
+            if hn:
+                out.append(hn[0].id)
+            return out
+        if s_.finalbody:
+            fn_ = [x for x in cfg.nodes if x.kind == "finally" and x.ast is s_]
+            if fn_:
+                out.append(fn_[0].id)
+            else:
+                fb = cfg.node_of_stmt(s_.finalbody[0])
+                if fb is not None:
+                    out.append(fb.id)
+    return out
 
 
 def _has_join_thread(cfg, qv):
